@@ -81,6 +81,9 @@ pub enum Rule {
     DupAll { dir: Dir, extra: u32 },
     /// seeded random loss in permille for a direction
     Loss { dir: Dir, permille: u32, seed: u64 },
+    /// the worker's idx-th call of `send` (0-based, all attempts counted) fails with an error and transmits nothing
+    /// (a transient local error: ICMP port unreachable from an earlier datagram, ENOBUFS)
+    SendFail { idx: usize },
 }
 
 #[derive(Clone, Debug)]
@@ -142,7 +145,7 @@ impl CaseSpec {
     pub fn hostile(&self) -> bool {
         !self.peer.is_plain()
             || self.write_budget.is_some()
-            || self.rules.iter().any(|r| matches!(r, Rule::InjectBefore { .. } | Rule::InjectAfterBurst { .. }))
+            || self.rules.iter().any(|r| matches!(r, Rule::InjectBefore { .. } | Rule::InjectAfterBurst { .. } | Rule::SendFail { .. }))
     }
 }
 
@@ -277,6 +280,7 @@ pub struct Core {
     pub burst_times: Vec<u64>,
     suppress_until: Option<u64>,
     dropfirst_left: Vec<u32>,
+    send_attempts: usize,
     loss_state: Vec<u64>,
     recv_calls: usize,
     pub rules_fired: usize,
@@ -326,6 +330,7 @@ impl Core {
             burst_times: Vec::new(),
             suppress_until: None,
             dropfirst_left,
+            send_attempts: 0,
             loss_state,
             recv_calls: 0,
             rules_fired: 0,
@@ -571,6 +576,12 @@ impl Core {
             return Err("simulation event cap reached".into());
         }
         self.start_peer();
+        let attempt = self.send_attempts;
+        self.send_attempts += 1;
+        if self.spec.rules.iter().any(|r| matches!(r, Rule::SendFail { idx } if *idx == attempt)) {
+            self.rules_fired += 1;
+            return Err("simulated send failure".into());
+        }
         let pkt = self.classify_w(&bytes);
         let (mut file_len, mut file_ok) = (-2i64, true);
         let mut is_data = false;
